@@ -116,6 +116,63 @@ class FObj:
         object.__setattr__(self, k, v)
 
 
+import collections
+
+
+class FUserDict(collections.UserDict):
+    """a mapping that is not a dict subclass"""
+
+    def __setitem__(self, k, v):
+        if getattr(self, "_live", False):
+            _tick()
+        collections.UserDict.__setitem__(self, k, v)
+
+
+def make_slots_class(names):
+    """an object with __slots__ (no instance __dict__); one class per attribute set"""
+    names = tuple(names)
+    cname = "FSlots_" + "_".join(names)
+    if cname in globals():
+        return globals()[cname]
+
+    def __setattr__(self, k, v):
+        _tick()
+        object.__setattr__(self, k, v)
+
+    def __getstate__(self):
+        return {k: getattr(self, k) for k in type(self).__slots__ if hasattr(self, k)}
+
+    def __setstate__(self, st):
+        for k, v in st.items():
+            object.__setattr__(self, k, v)
+    cls = type(cname, (), {"__slots__": names, "__setattr__": __setattr__, "__getstate__": __getstate__, "__setstate__": __setstate__,
+                           "__module__": __name__})
+    globals()[cname] = cls          # picklable: the class is found by name in this module
+    return cls
+
+
+class Num:
+    """a user-defined number class (duck-typed arithmetic)"""
+
+    def __init__(self, v):
+        self.v = v
+
+    def _c(self, o):
+        return o.v if isinstance(o, Num) else o
+
+    def __add__(self, o): return Num(self.v + self._c(o))
+    def __radd__(self, o): return Num(self._c(o) + self.v)
+    def __sub__(self, o): return Num(self.v - self._c(o))
+    def __rsub__(self, o): return Num(self._c(o) - self.v)
+    def __mul__(self, o): return Num(self.v * self._c(o))
+    def __rmul__(self, o): return Num(self._c(o) * self.v)
+    def __eq__(self, o): return isinstance(o, Num) and self.v == o.v
+    def __hash__(self): return hash(("Num", self.v))
+    def __repr__(self): return f"Num({self.v!r})"
+    real = property(lambda self: Num(self.v)); imag = property(lambda self: Num(0))
+    numerator = property(lambda self: Num(self.v)); denominator = property(lambda self: Num(1))
+
+
 def dv(v):
     """values: ints travel as they are, other types in a tagged string encoding"""
     if isinstance(v, str) and v[:1] == "\x02":
@@ -136,6 +193,14 @@ def dv(v):
             return tuple(json.loads(x))
         if tag == "list":
             return json.loads(x)
+        if tag == "frac":
+            import fractions
+            return fractions.Fraction(x)
+        if tag == "dec":
+            import decimal
+            return decimal.Decimal(x)
+        if tag == "num":
+            return Num(int(x))
         import numpy as np
         if tag == "arr":
             return np.array(json.loads(x))
@@ -148,10 +213,12 @@ def dv(v):
 
 
 def fsum(c):
-    if isinstance(c, dict):
+    if isinstance(c, (dict, FUserDict)):
         vals = list(c.values())
     elif isinstance(c, list):
         vals = list(c)
+    elif type(c).__name__.startswith("FSlots_"):
+        vals = [getattr(c, k) for k in type(c).__slots__ if hasattr(c, k)]
     else:
         vals = list(vars(c).values())
     for v in vals:
@@ -176,6 +243,17 @@ def build(spec):
         return d
     if kind == "list":
         return FList([build(v) for _, v in spec["items"]])
+    if kind == "userdict":
+        d = FUserDict()
+        for k, v in spec["items"]:
+            d[dk(k)] = build(v)
+        object.__setattr__(d, "_live", True)
+        return d
+    if kind == "slots":
+        o = make_slots_class([k for k, _ in spec["items"]])()
+        for k, v in spec["items"]:
+            object.__setattr__(o, k, build(v))
+        return o
     if kind == "attrdict":                     # the library's default container (attribute and item access in sync)
         from xdeps.utils import AttrDict
         d = AttrDict()
@@ -195,9 +273,16 @@ def flatten(obj, pre, out):
     elif isinstance(obj, FList):
         for i, v in enumerate(obj):
             flatten(v, pre + [i], out)
+    elif isinstance(obj, FUserDict):
+        for k, v in obj.data.items():
+            flatten(v, pre + [ek(k)], out)
     elif isinstance(obj, FObj):
         for k, v in vars(obj).items():
             flatten(v, pre + [k], out)
+    elif type(obj).__name__.startswith("FSlots_"):
+        for k in type(obj).__slots__:
+            if hasattr(obj, k):
+                flatten(getattr(obj, k), pre + [k], out)
     elif obj is fsum:
         out.append([pre, "FunSum"])
     else:
